@@ -205,6 +205,34 @@ func c33Universe(c *core.Ctx, r *core.Rand, prefix string) (fds []protoreflect.F
 		mk(prefix+"/clash_pkg_deep.proto", string(n)+".deep.er", func(p *descriptorpb.FileDescriptorProto) {
 			p.MessageType = []*descriptorpb.DescriptorProto{{Name: proto.String("Inner")}}
 		})
+		// packages running through declarations nested in that message (and one component
+		// below them): the failed registration must not shadow the nested declarations
+		deep := 0
+		var walk func(md protoreflect.MessageDescriptor)
+		walk = func(md protoreflect.MessageDescriptor) {
+			for i := 0; i < md.Messages().Len() && deep < 4; i++ {
+				nm := md.Messages().Get(i)
+				if nm.IsMapEntry() {
+					continue
+				}
+				deep++
+				pkg := string(nm.FullName())
+				if deep%2 == 0 {
+					pkg += ".below"
+				}
+				if nm.Fields().Len() > 0 && deep%3 == 0 {
+					pkg = string(nm.Fields().Get(0).FullName()) + ".under_field"
+				}
+				mk(fmt.Sprintf("%s/clash_pkg_nested%d.proto", prefix, deep), pkg, func(p *descriptorpb.FileDescriptorProto) {
+					p.MessageType = []*descriptorpb.DescriptorProto{{Name: proto.String("Inner")}}
+				})
+				walk(nm)
+			}
+		}
+		walk(someMsg)
+		if deep > 0 {
+			c.Count("conflict_packages_through_nested_declarations")
+		}
 		// an enum value named like that message, in the same package
 		mk(prefix+"/clash_enum_value.proto", string(n.Parent()), func(p *descriptorpb.FileDescriptorProto) {
 			p.EnumType = []*descriptorpb.EnumDescriptorProto{{Name: proto.String("ClashHolderEnum"), Value: []*descriptorpb.EnumValueDescriptorProto{{Name: proto.String(string(n.Name())), Number: proto.Int32(0)}}}}
